@@ -203,7 +203,7 @@ func RunC17(c *Ctx, r *Report) {
 
 	// rule 1
 	rule1 := prefix + "hash.write-after-reset"
-	r.Rule(rule1, "every hash.Hash.Write is on an object that is fresh (hmac.New / descriptor Init) or was Reset with no Sum in between", 6)
+	r.Rule(rule1, "every hash.Hash.Write is on an object that is fresh (hmac.New / descriptor Init) or was Reset with no Sum in between", 4)
 	for _, fn := range c.ModFuncs {
 		has := false
 		for _, b := range fn.Blocks {
